@@ -118,7 +118,7 @@ pub fn judge_server(hier: &Hier, q: &(Name, RecordType), honest_answer: &Message
     let mut f = vec![];
     let (rcode, ad, answers) = match out {
         ServerOutcome::Panic(loc, msg) => {
-            f.push(Finding { clause: format!("server-panic:{loc}"), what: format!("the server task panicked: {msg}") });
+            f.push(Finding { clause: crate::oracle::panic_key("server-panic", loc, msg), what: format!("the server task panicked at {loc}: {msg}") });
             return (f, "panic".into());
         }
         ServerOutcome::NoResponse => return (f, "no-response".into()),
